@@ -397,7 +397,13 @@ func runCase(ops []string, forced []string, em *emitter) {
 
 func workerMain() {
 	zerolog.SetGlobalLevel(zerolog.Disabled)
-	debug.SetMaxStack(64 << 20)
+	maxStack := 8 << 20
+	if v := os.Getenv("VERIF_MAXSTACK_MB"); v != "" {
+		if n, err := strconv.Atoi(v); err == nil && n > 0 {
+			maxStack = n << 20
+		}
+	}
+	debug.SetMaxStack(maxStack)
 	debug.SetMemoryLimit(3 << 30)
 	// hard cap on the address space: a runaway allocation dies quickly instead of taking the box down
 	lim := syscall.Rlimit{Cur: 16 << 30, Max: 16 << 30}
